@@ -59,6 +59,7 @@ def c05_2(ctx):
     for s in fn.body:
         if isinstance(s, ast.If) and 'startswith' in U(s.test):
             chain = if_chain(s)
+            break
     ctx.need(chain is not None, 'adj dispatch of Calendar.adjust not found')
     rows = {}
     for test, body in chain:
@@ -100,9 +101,9 @@ def c05_2(ctx):
             t = N(ifs[0].test)
             date = fn.params[1]
             if t == NS('t.month != %s.month' % date):
-                a, b = ifs[0].body, ifs[0].orelse
+                a, b = ifs[0].body, else_of(ifs[0])
             elif t == NS('t.month == %s.month' % date):
-                b, a = ifs[0].body, ifs[0].orelse
+                b, a = ifs[0].body, else_of(ifs[0])
             else:
                 ctx.fail(fn, ifs[0], "'m' month test is `%s`" % U(ifs[0].test))
                 a = b = None
@@ -134,9 +135,9 @@ def c05_3(ctx):
     ctx.count(1, fn.where(ifs[0]))
     txt = N(ifs[0].test)
     if txt in (NS('abs(%s) > 1' % days), NS('abs(%s) >= 2' % days)):
-        table, loop = ifs[0].body, ifs[0].orelse
+        table, loop = ifs[0].body, else_of(ifs[0])
     elif txt in (NS('abs(%s) <= 1' % days), NS('abs(%s) < 2' % days)):
-        loop, table = ifs[0].body, ifs[0].orelse
+        loop, table = ifs[0].body, else_of(ifs[0])
     else:
         ctx.fail(fn, ifs[0], 'table/loop threshold is `%s`; the stepping loop is only valid for |%s| <= 1' % (U(ifs[0].test), days))
         return
@@ -356,7 +357,7 @@ def c05_8(ctx):
             body = [U(x) for x in inner[0].body]
             if not ok or body != ['calendars[key.key] = key', 'key = key.key']:
                 ctx.fail(c, inner[0], 'a Calendar passed without overrides is not stored as it is under its own key (when `%s`: %s)' % (U(inner[0].test), body), witness=w)
-            ov = {U(x.targets[0]): N(x.value) for x in inner[0].orelse if isinstance(x, ast.Assign)}
+            ov = {U(x.targets[0]): N(x.value) for x in else_of(inner[0]) if isinstance(x, ast.Assign)}
             want = {'holidays': NS('holidays or list(key.holidays.keys())'), 'weekend': NS('weekend or key.weekend'), 't0': NS('t0 or key.t0'), 't1': NS('t1 or key.t1'), 'key': 'key.key',
                     'calendars[key]': NS('Calendar(key, holidays=holidays, weekend=weekend, t0=t0, t1=t1)')}
             if ov != want:
